@@ -152,7 +152,9 @@ def body_factory(ctx):
             M = prob.design(row, solver="independent")
             want_rv = M @ x_du
             scale = np.abs(x_du) @ np.max(np.abs(M), axis=0) + 1e-300
-            tol = 1e-8 * scale * (1 + 2 * math.pi * (prob.t.max() - prob.t_ref) / P_d * 1e-7 / (1 - e))
+            # 2e-5 |K|: the pymc model's own Kepler solver (ops.kepler) is only good to ~5e-7 in a narrow window
+            # |M - pi| < 1e-5 at high eccentricity (measured; elsewhere 1e-13) - far below any data error
+            tol = 1e-8 * scale * (1 + 2 * math.pi * (prob.t.max() - prob.t_ref) / P_d * 1e-7 / (1 - e)) + 2e-5 * abs(x_du[0])
             if model_rv.shape != want_rv.shape or np.max(np.abs(model_rv - want_rv)) > tol:
                 used_f5 = False
                 if "F5" in prob.applicable_flags(row):
